@@ -310,6 +310,37 @@ def absflags(a):
     return [int(x) for x in np.asarray(a).ravel().tolist()]
 
 
+def joint_event(frontend, table, config, workdir, form="iso"):
+    """one collect over the ContextResults of TWO runs whose streams have different numbers of rows (as the variables of
+    a dataset on different dimensions have): the second run is the same table cut to its first rows with the stream ids
+    renamed.  Every (stream, module, test) of the joint collection must equal what its own run gives alone."""
+    install()
+    n = len(table["t"])
+    m = max(1, n // 2)
+    ren = {k: k + "2" for k in table["data"]}
+    t2 = {"t": table["t"][:m], "hastime": table.get("hastime", True), "data": {ren[k]: v[:m] for k, v in table["data"].items()},
+          "z": table["z"][:m], "lat": table["lat"][:m], "lon": table["lon"][:m]}
+    c2 = [{"win": c["win"], "entries": [dict(e, stream=ren.get(e["stream"], e["stream"] + "2")) for e in c["entries"]]} for c in config]
+    ev = {"ev": "joint", "exc": "", "same1": False, "same2": False, "n1": n, "n2": m}
+
+    def entries(lst):
+        return {(cr.stream_id, cr.package, cr.test): (absflags(cr.results), absarr(cr.data), absarr(cr.tinp), absarr(cr.zinp))
+                for cr in lst}
+    try:
+        r1 = list(make_stream(frontend, table, config, workdir).run(Config(config_dict(config, form))))
+        r2 = list(make_stream(frontend, t2, c2, workdir).run(Config(config_dict(c2, form))))
+        solo1, solo2 = entries(collect_results(r1, how="list")), entries(collect_results(r2, how="list"))
+        for order in (r1 + r2, r2 + r1):
+            both = entries(collect_results(order, how="list"))
+            ev["same1"] = all(both.get(k) == v for k, v in solo1.items())
+            ev["same2"] = all(both.get(k) == v for k, v in solo2.items()) and len(both) == len(solo1) + len(solo2)
+            if not (ev["same1"] and ev["same2"]):
+                break
+    except Exception as e:  # noqa: BLE001
+        ev["exc"] = type(e).__name__
+    return ev
+
+
 def run_frontend(frontend, table, config, workdir, form="iso", max_orders=3, rng=None, fixed_orders=None):
     """-> list of events (dicts without id/rid) for one real run"""
     install()
